@@ -70,6 +70,18 @@ func TestC20_Engine(t *testing.T) {
 		if rapid.IntRange(0, 7).Draw(t, "hostile-k") == 0 {
 			q += " kill Kelvin ok"
 		}
+		if len(cmds) > 0 && rapid.IntRange(0, 7).Draw(t, "quoted-phrase") == 0 {
+			// part of the query in quotation marks (double, single or back quotes): words of one entry, as they stand there
+			c := cmds[rapid.IntRange(0, len(cmds)-1).Draw(t, "phrase-of")]
+			fs := strings.Fields(strings.ToLower(c.Command + " " + c.Description))
+			if len(fs) > 0 {
+				i := rapid.IntRange(0, len(fs)-1).Draw(t, "phrase-at")
+				phrase := strings.Join(fs[i:min(len(fs), i+rapid.IntRange(1, 3).Draw(t, "phrase-len"))], " ")
+				qm := rapid.SampledFrom([]string{`"`, `"`, `'`, "`"}).Draw(t, "quote-mark")
+				q = rapid.SampledFrom([]string{q + " " + qm + phrase + qm, qm + phrase + qm + " " + q, qm + phrase + qm}).Draw(t, "quoted-query")
+				qc = "quoted-phrase"
+			}
+		}
 		if rapid.IntRange(0, 5).Draw(t, "context-clue") == 0 {
 			// phrases the NLP stage looks for as substrings of the raw query text
 			q = rapid.SampledFrom([]string{"preview", "reading", "looking", "overview", "outlook", "thread", "seeking", "displayed", "show", "see"}).Draw(t, "view-word") + " " + q + " " +
